@@ -16,7 +16,10 @@ use std::collections::hash_map::RandomState;
 use std::collections::HashMap;
 use std::hash::{BuildHasher, Hash};
 use std::marker::PhantomData;
+#[cfg(not(transparencies_stretto_verif))]
 use std::sync::atomic::{AtomicBool, Ordering};
+#[cfg(transparencies_stretto_verif)]
+use stretto_verif_rt::atomic::{AtomicBool, Ordering};
 use std::sync::Arc;
 use std::time::Duration;
 
